@@ -84,3 +84,83 @@ class BM(mesa.Model):
         if self.stop is not None and self.steps >= self.stop:
             self.running = False
         self._collects(self._count(self.sc))
+
+
+# ---- user classes as parameter VALUES of batch_run (what _make_model_kwargs makes of them is decided by iterating) ----
+class SeqProto:
+    """iterable only through the sequence protocol: __len__ + __getitem__, no __iter__"""
+
+    def __init__(self, items):
+        self._items = list(items)
+
+    def __len__(self):
+        return len(self._items)
+
+    def __getitem__(self, i):
+        return self._items[i]
+
+    def __repr__(self):
+        return f"SeqProto({self._items})"
+
+
+class IterOnly:
+    """re-iterable through __iter__ only (no __len__, no __getitem__)"""
+
+    def __init__(self, items):
+        self._items = list(items)
+
+    def __iter__(self):
+        return iter(self._items)
+
+    def __repr__(self):
+        return f"IterOnly({self._items})"
+
+
+class Both(SeqProto):
+    def __iter__(self):
+        return iter(self._items)
+
+
+class MappingLike:
+    """a read-only mapping: iterating it yields its keys"""
+
+    def __init__(self, keys):
+        self._d = {k: str(k) for k in keys}
+
+    def keys(self):
+        return self._d.keys()
+
+    def __getitem__(self, k):
+        return self._d[k]
+
+    def __iter__(self):
+        return iter(self._d)
+
+    def __len__(self):
+        return len(self._d)
+
+    def __repr__(self):
+        return f"MappingLike({list(self._d)})"
+
+
+class StrSub(str):
+    """a str subclass: a single value like any string"""
+
+
+class LenOnly:
+    """has a length but cannot be iterated or indexed: a single value; `code` identifies it in the rows"""
+
+    def __init__(self, code, n):
+        self.code, self._n = code, n
+
+    def __len__(self):
+        return self._n
+
+    def __eq__(self, other):
+        return isinstance(other, LenOnly) and other.code == self.code
+
+    def __hash__(self):
+        return hash(self.code)
+
+    def __repr__(self):
+        return f"LenOnly({self.code})"
